@@ -412,6 +412,21 @@ def r3_id_plumbing(ctx):
                        'ToBeRenamed{old,new}: new derives from random(): %s; old derives from random(): %s' % (srcs.get('new'), srcs.get('old')))
 
 
+def r3b_removal_cookie(ctx):
+    ctx.rule('C11.R3b', 'shared with C12.R3: the removal cookie sent after invalidate() is built from the configured name, domain and path (a removal '
+             'cookie only evicts the cookie whose name, domain and path it repeats: without the domain the client keeps the invalidated cookie).')
+    from .c12 import r3_attribute_plumbing
+    from ..engine import Ctx
+    side = Ctx(ctx.prop, ctx.fb, ctx.tier)
+    r3_attribute_plumbing(side)
+    n = 0
+    for ob in side.obs:
+        if 'RemovalCookie' in ob.key:
+            n += 1
+            ctx.ob('C11.R3b', ob.key, ob.ok, ob.loc, ob.detail, ob.nontrivial)
+    ctx.floor('C11.R3b', 'removal-cookie obligations', n, 4)
+
+
 def r4_only_sync_talks_to_store(ctx):
     ctx.rule('C11.R4', 'P3 who-may-call: inside pavex_session, SessionStore::{create,update,update_ttl,delete,change_id} are '
              'called only from Session::sync and SessionStore::load only from force_load; positive control: the query '
@@ -442,6 +457,7 @@ def check(ctx):
     r1_dirty_tracking(ctx)
     r2_sync_table(ctx)
     r3_id_plumbing(ctx)
+    r3b_removal_cookie(ctx)
     r4_only_sync_talks_to_store(ctx)
     from .c11_model import r5_typestate
     r5_typestate(ctx)
